@@ -479,6 +479,15 @@ def r123(ctx, m, cname, f, info):
                     continue
                 outside = [d for d, _ in rds if d.kind != "param" and not _inside(d, inner_loop)]
                 if plain and outside:
+                    # an array allocated before the loop and refreshed in place in every iteration
+                    # (`pos[:, :dim] = <this step's positions>` dominating the call) holds this frame's data
+                    refreshed = False
+                    for s_ in ast.walk(inner_loop):
+                        if isinstance(s_, ast.Assign) and any(isinstance(t_, ast.Subscript) and isinstance(t_.value, ast.Name) and t_.value.id == nm.id for t_ in s_.targets) and not isinstance(s_.value, ast.Constant):
+                            if any(cfg.dominates(sn_, at) for sn_ in cfg.nodes_of(s_)):
+                                refreshed = True
+                    if refreshed:
+                        continue
                     ctx.bad(rid, oc, f"{kw}= of calculate_order may hold data defined outside this loop iteration (line {outside[0].at.line}): not this frame's own data",
                             construct=f"calculate_order(..., {kw}={short(v, 40)})")
                     ok = False
@@ -1081,6 +1090,63 @@ def _monomial(e, env=None):
     return None
 
 
+def r1216(ctx, m, cname, f):
+    """calculate_order's all-or-nothing contract: if any one of xyz / vel / box is None the method
+    discards all three and re-reads `system.config[0]` - the configuration the propagation
+    started from. A call inside a frame loop that hands over this frame's arrays must therefore not
+    pass a value that the function itself treats as possibly None (it tests it with `is None` /
+    `is not None` elsewhere) unless the call is guarded by that test."""
+    rid = "R-12.16"
+    fl = flow_of(f)
+    cfg = fl.cfg
+    maybe_none = set()
+    for n in walk_local(f):
+        if isinstance(n, ast.Compare) and len(n.ops) == 1 and isinstance(n.ops[0], (ast.Is, ast.IsNot)) and isinstance(n.comparators[0], ast.Constant) and n.comparators[0].value is None and isinstance(n.left, ast.Name):
+            maybe_none.add(n.left.id)
+    n_calls = 0
+    for oc in [c for c in walk_local(f) if isinstance(c, ast.Call) and last_name(c) == "calculate_order"]:
+        given = {kw: kwarg(oc, kw, {"xyz": 1, "vel": 2, "box": 3}[kw]) for kw in ("xyz", "vel", "box")}
+        if all(v is None for v in given.values()):
+            continue  # the method reads the configuration itself: nothing to discard
+        n_calls += 1
+        at = cfg.node_of(oc)
+        facts = [(ast.unparse(e), t) for e, t, _ in cfg.guards(at)]
+        bad = None
+        for kw, v in given.items():
+            if v is None or (isinstance(v, ast.Constant) and v.value is None):
+                bad = (kw, "is not given (None)")
+                break
+            if isinstance(v, ast.Name) and v.id in maybe_none and (f"{v.id} is not None", True) not in facts and (f"{v.id} is None", False) not in facts:
+                # path-sensitive: does a definition that the function tests for None reach this call
+                # along a path that passes neither the "is not None" side of such a test nor a re-binding?
+                def _nn(e, t):
+                    return (isinstance(e, ast.Compare) and len(e.ops) == 1 and isinstance(e.left, ast.Name) and e.left.id == v.id
+                            and isinstance(e.comparators[0], ast.Constant) and e.comparators[0].value is None
+                            and ((isinstance(e.ops[0], ast.IsNot) and t) or (isinstance(e.ops[0], ast.Is) and not t)))
+                nonnull = {nd.id for nd in cfg.nodes if nd.kind == "branch" and any(_nn(e, t) for e, t in nd.facts)}
+                tests = {nd.id for nd in cfg.nodes if nd.kind == "branch" and any(_nn(e, t) or _nn(e, not t) for e, t in nd.facts)}
+                alld = [d for d in fl.defs if d.path == v.id and d.at is not None]
+                unsafe = False
+                for d, sfx in fl.rd(v.id, at):
+                    if sfx:
+                        continue
+                    others = [o.at for o in alld if o.at.id != d.at.id]
+                    # is this very definition the subject of a None test?
+                    if not any(cfg.reaches(d.at, cfg.nodes[x], avoid=others) for x in tests):
+                        continue
+                    if cfg.reaches(d.at, at, avoid=others + [cfg.nodes[x] for x in nonnull]):
+                        unsafe = True
+                if unsafe:
+                    bad = (kw, f"is `{v.id}`, which this function itself treats as possibly None (`{v.id} is None` is tested elsewhere) and which reaches this call without passing the not-None side of such a test or a re-binding")
+                    break
+        if bad:
+            ctx.bad(rid, oc, f"{cname}._propagate_from hands this frame's arrays to calculate_order, but {bad[0]}= {bad[1]}: when one of xyz / vel / box is None, calculate_order discards all three and re-reads system.config[0], the configuration the propagation started from - every frame then stores the first frame's order parameter and the stop rule never sees a crossing",
+                    construct=f"calculate_order(..., {bad[0]}={short(given[bad[0]], 30) if given[bad[0]] is not None else 'None'})")
+        else:
+            ctx.ok(rid, oc, f"{cname}: xyz, vel and box handed to calculate_order are all present (none of them is treated as optional here)")
+    return n_calls
+
+
 def r1214(ctx):
     """Step budget: every engine lets the MD program / integrator loop run exactly
     path.maxlen * subcycles steps, so that a trajectory which reaches no interface delivers
@@ -1163,6 +1229,7 @@ def run(ctx):
     ctx.rule("R-12.12", "frame indices of configuration references are never tested by truthiness (index 0 is a frame)", floor=5)
     ctx.rule("R-12.11", "no `for` variable of the engine modules is read after its loop has ended", floor=40)
     ctx.rule("R-12.10", "positional role agreement in the propagation functions: unpacked names / positional arguments sit at the position where the callee returns / expects that name", floor=15)
+    ctx.rule("R-12.16", "calculate_order's all-or-nothing contract: a per-frame call hands over xyz, vel and box that are all present (a value the function treats as optional would make the method re-read the starting configuration)", floor=6)
     engs = engines(ctx.tree)
     armed = [e for e in engs if e[0].rel in ENGINE_FILES]
     if len(armed) < 5:
@@ -1179,6 +1246,7 @@ def run(ctx):
         r125(ctx, m, cname, f, info)
         r126(ctx, m, cname, f, info)
         ctx.attempt(r129, ctx, m, cname, f)
+        ctx.attempt(r1216, ctx, m, cname, f)
     ctx.attempt(r124, ctx)
     ctx.attempt(r124_rc_tests, ctx)
     ctx.attempt(r1214, ctx)
@@ -1201,6 +1269,8 @@ def run(ctx):
 
 
 VARIANTS = [
+    B("c12-turtle-order-from-optional-box", TURTLE, "                order = self.calculate_order(\n                    system,\n                    xyz=tmd_system.particles.pos,\n                    vel=tmd_system.particles.vel,\n                    box=tmd_system.box.length,\n                )", "                order = self.calculate_order(\n                    system, xyz=pos, vel=vel, box=box\n                )", "R-12.16", control=True, why="seeded C12_f"),
+    K("c12-keep-turtle-order-from-written-arrays", TURTLE, "                order = self.calculate_order(\n                    system,\n                    xyz=tmd_system.particles.pos,\n                    vel=tmd_system.particles.vel,\n                    box=tmd_system.box.length,\n                )", "                order = self.calculate_order(\n                    system, xyz=pos, vel=vel, box=tmd_system.box.length\n                )", why="arrays refreshed in place in this iteration are this frame's data"),
     B("c12-gromacs-reverse-writes-template", GROMACS, "        write_gromos96_file(outfile, txt, xyz, -1 * vel)", "        write_gromos96_file(outfile, self.top, xyz, -1 * vel)", "R-12.15", why="seeded C12_e"),
     B("c12-ase-one-frame-short", ASE, "        for i in range(self.subcycles * path.maxlen):", "        for i in range(self.subcycles * (path.maxlen - 1)):", "R-12.14", control=True, why="seeded C09_e"),
     B("c12-lammps-nsteps-without-subcycles", LAMMPS, '"infretis_nsteps": path.maxlen * self.subcycles,', '"infretis_nsteps": path.maxlen,', "R-12.14"),
